@@ -137,14 +137,32 @@ _opt_cache = {}
 _tuple_cache = {}
 
 
-def opt_sort(inner):
+class _Opt:
+    """Option datatype with constructor names unique per instance (SMT-LIB text stays unambiguous for cvc5)."""
+
+    def __init__(self, inner):
+        tag = str(inner).replace(" ", "_").replace("(", "_").replace(")", "_")
+        d = z3.Datatype("Opt_" + tag)
+        d.declare("none_" + tag)
+        d.declare("some_" + tag, ("val_" + tag, inner))
+        self.sort = d.create()
+        self.none = getattr(self.sort, "none_" + tag)
+        self.some = getattr(self.sort, "some_" + tag)
+        self.val = getattr(self.sort, "val_" + tag)
+        self.is_none = getattr(self.sort, "is_none_" + tag)
+        self.is_some = getattr(self.sort, "is_some_" + tag)
+
+
+def opt(inner):
     key = str(inner)
     if key not in _opt_cache:
-        d = z3.Datatype("Opt_" + key.replace(" ", "_").replace("(", "_").replace(")", "_"))
-        d.declare("none")
-        d.declare("some", ("val", inner))
-        _opt_cache[key] = d.create()
+        _opt_cache[key] = _Opt(inner)
     return _opt_cache[key]
+
+
+def opt_sort(inner):
+    """Helper object with .sort/.none/.some/.val/.is_none/.is_some for Option[inner]."""
+    return opt(inner)
 
 
 def tuple_sort(sorts):
@@ -155,6 +173,11 @@ def tuple_sort(sorts):
         d.declare("mk", *[(f"f{i}", s) for i, s in enumerate(sorts)])
         _tuple_cache[key] = d.create()
     return _tuple_cache[key]
+
+
+def opt_of(ty):
+    """Option helper for an Opt[scalar] type."""
+    return opt(sort_of(ty.args[0]))
 
 
 def sort_of(ty):
@@ -173,7 +196,7 @@ def sort_of(ty):
         inner = ty.args[0]
         if is_reflike(inner):
             return I
-        return opt_sort(sort_of(inner))
+        return opt_sort(sort_of(inner)).sort
     if n == "Tuple":
         return tuple_sort([sort_of(a) for a in ty.args])
     if n == "None":
@@ -250,7 +273,7 @@ def to_sort_term(v, ty):
             if is_reflike(v.ty) or (v.ty.name == "Opt" and is_reflike(v.ty.args[0])):
                 return v.t
         else:
-            srt = sort_of(ty)
+            srt = opt_of(ty)
             if v.ty == NONE:
                 return srt.none
             if v.ty == inner:
